@@ -17,6 +17,12 @@ CHECKS["C10"] = dict(
     note="Trusts TLC, the BigInt module (cross-checked against TLC-native integers on [-W,W]^2 and by identities at 2^40), and decoding of float text to (significand, exponent).",
     design="§5 C10")
 
+CHECKS["C20"] = dict(
+    technique="TLA+ specs PanLockset/PanSymtab: TLC explores all interleavings of 3 processes (locked variant safe, unlocked variant must violate NoRace); lock/table-access traces recorded from the auto-instrumented real interpreter (start-up goroutines + N concurrent evaluations) are validated against PanLockset by TLC (trace validation)",
+    text="Design-level exhaustive model checking of the RWMutex protocol, and lockset trace validation of real concurrent executions: every table access event must be enabled (lock held) in the specification, independent of whether a race happens in the observed schedule.",
+    note="Trusts TLC, the build-time instrumentation (harness/cmd/hookgen, statement granularity, package-level variables of object/hashtable.go only) and the event order recorded under the tracer's mutex.",
+    design="§5 C20")
+
 NOT_YET = {}
 
 def main():
